@@ -112,6 +112,25 @@ Theorem C02_atr_binary64_within_tau : forall p a xs M, atr_new FOps p = Ok a -> 
      (1 / 10 ^ 12 + 1 / 10 ^ 15 * (INR (j + 1) * R_sqrt.sqrt (INR (j + 1)))) * M)%R.
 Proof. exact atr_float_within_tau. Qed.
 
+(* ... and for the MACD: three float EMAs (each within 17 (n+1) u M of its real EMA, for streams of ANY length: the error saturates),
+   two rounded subtractions and the 1-Lipschitz dependence of the signal on the line: every output of every step is within a fixed
+   multiple of (n_f + n_s + n_g + 3) * 2^-53 * M of the exact real MACD line / signal / histogram of the same inputs *)
+From TA Require Import Proofs.FloatMacd.
+Theorem C02_macd_binary64_error : forall pf ps pg s xs M, macd_new FOps pf ps pg = Ok s ->
+  (pf < 35184372088832)%N -> (ps < 35184372088832)%N -> (pg < 35184372088832)%N ->
+  (1 <= M)%R -> (4 * M <= bpow radix2 990)%R -> Forall (okin M) xs ->
+  let A := ebound pf M in let B := ebound ps M in let C := ebound pg M in
+  let D := (A + B + 4 * u * M)%R in
+  let outs := macd_outs FOps s xs in
+  let reals := macd_real (kreal pf) (kreal ps) (kreal pg) (map FR xs) in
+  length outs = length xs /\
+  forall j, (j < length xs)%nat -> exists l sg h L SG H,
+    nth j outs [] = [l; sg; h] /\ nth j reals [] = [L; SG; H] /\ finF l /\ finF sg /\ finF h /\
+    (Rabs (FR l - L) <= D)%R /\ (Rabs (FR sg - SG) <= 3 * C + D)%R /\ (Rabs (FR h - H) <= 2 * D + 3 * C + 7 * u * M)%R.
+Proof. exact macd_float_error. Qed.
+Theorem C02_macd_error_unit : forall p M, ebound p M = (17 * (IZR (Z.of_N p) + 1) * u * M)%R.
+Proof. reflexivity. Qed.
+
 From Coq Require Import List Floats.
 From TA Require Import Generic FloatInst XQ Run2 Par.Hom Par.Var Par.Oracle.
 (* the T2 oracle (exact rational run, evaluated by the checks) is the image of the exact real run these
